@@ -206,8 +206,10 @@ impl JitWorld {
       // the code cache is never evicted: start a fresh one before it can fill up
       let cost = 256 + est_len * 96;
       if self.cache.is_none() || self.translations >= 4096 || self.budget_bytes + cost > 0x700000 {
+        let lk = crate::util::pool::xlock();
         self.cache = None; // unmap first
         self.cache = Some(CodeCache::new());
+        crate::util::pool::xunlock(lk);
         self.translations = 0;
         self.budget_bytes = 0;
       }
@@ -218,7 +220,9 @@ impl JitWorld {
       let rom: *const Box<[u8]> = &self.core.memory.rom;
       let cache = self.cache.as_mut().unwrap();
       let pc = c.pc as usize;
+      let lk = crate::util::pool::xlock();
       let r = std::panic::catch_unwind(std::panic::AssertUnwindSafe(|| cache.translate_code_block(unsafe { &*rom }, pc, mem)));
+      crate::util::pool::xunlock(lk);
       match r {
         Ok(addr) => {
           self.cur = Some((c.pc, addr));
